@@ -1,13 +1,23 @@
 """C06 — acknowledged means persisted; rejected means no trace."""
 from checks.enginelib import *
+from checks import batchlib
 
 META = {
-    "text": 'Lean: component model Ack (every entry written or queued during the run is tagged with the request that committed it); inductive invariant Ack.Inv (step_inv, for every choice of previews); theorems over all accepted event sequences incl. crashes and store failures: ack_implies_durable + ack_only_when_durable (a success stands for an entry persisted at that moment, carrying the answered transaction id), ack_stays_durable (the store only grows), every_entry_has_producer (store = initial log ++ entries each committed by a real request), error_leaves_nothing (now or later), one_entry_per_request, answer_is_the_entry, crash_before_persist_leaves_nothing (lost logs: no entry, producers never acknowledged, wake-up and success rejected), store_failure_never_acks, wake_only_when_durable. Tie: trace validation (a request is woken only when its own log is persisted; success only with a persisted entry with that id; no commit by an answered request); oracle: responses vs the durable log at response time.',
-    "note": "PARTIAL: pond/job.Runner internals and Go panic propagation are abstracted to 'a failing InsertLogs is followed by process death without a wake-up' (observed on the real runner). Trusted: Lean kernel; event extraction.",
-    "technique": 'Lean 4 proof (inductive invariant of the Ack component) + trace validation with failure injection + response/log oracle + regenerated commander skeleton (extract/commander -> Generated/Commander.lean on every run): well-formedness of every control path by decide, refinement of this component by the interpreted skeleton under every schedule, observed runs re-executed in the skeleton system',
-    "design_ref": '5 (C06)',
+    "text": 'Lean: component model Ack (every entry written or queued during the run is tagged with the request that committed it); inductive invariant Ack.Inv (step_inv, for every choice of previews); theorems over all accepted event sequences incl. crashes and store failures: ack_implies_durable + ack_only_when_durable (a success stands for an entry persisted at that moment, carrying the answered transaction id), ack_stays_durable (the store only grows), every_entry_has_producer (store = initial log ++ entries each committed by a real request), error_leaves_nothing (now or later), one_entry_per_request, answer_is_the_entry, crash_before_persist_leaves_nothing (lost logs: no entry, producers never acknowledged, wake-up and success rejected), store_failure_never_acks, wake_only_when_durable. Tie: trace validation (a request is woken only when its own log is persisted; success only with a persisted entry with that id; no commit by an answered request); oracle: responses vs the durable log at response time. Stage 2, the component between commit and the store (batching.Batcher + job.Runner, one worker): Lean model Batcher (Model/Batcher.lean), theorems for every operation sequence, every maxBatchSize, unbounded queues: ack_only_after_persisted (the callbacks that ran are a prefix of the objects of the runner calls that returned nil, each in a batch that was handed out), failure_acks_nothing_and_stops + failed_batch_never_acked (from a failing call on, whatever follows: no callback, no further batch, the loop is not running), stop_acks_nothing_unpersisted + close_runs_no_callback (Close runs no callback and none runs afterwards). Tie: area batcher — seeded operation sequences on the real Batcher[int] + job.Runner (a failing runner call, also three in a row; a Close with work queued) compared step by step with the model (stream batcher:model-vs-real); oracle on the record of the implementation alone: ack-without-persistence (when = failure | stop | running), ack-twice, ack-order.',
+    "note": "PARTIAL: pond/job.Runner internals and Go panic propagation are abstracted to 'a failing InsertLogs is followed by process death without a wake-up' (observed on the real runner) in the Ack machine; job.Runner (one worker) and Batcher are modelled and tied as a component of their own (stage 2), pond and the Go runtime stay abstract; interleavings inside one harness operation are not explored. Trusted: Lean kernel; event extraction; the batcher harness (gate in the runner function, quiescence from the events an operation must cause, overlay exports VerifPendingLen / VerifUnpark).",
+    "technique": 'Lean 4 proof (inductive invariant of the Ack component) + trace validation with failure injection + response/log oracle; Lean 4 proof (inductive invariant of the Batcher / job.Runner component) + operation-sequence differential on the real component + callback oracle + regenerated commander skeleton (extract/commander -> Generated/Commander.lean on every run): well-formedness of every control path by decide, refinement of this component by the interpreted skeleton under every schedule, observed runs re-executed in the skeleton system',
+    "design_ref": '5 (C06), 0a (The batcher and the job runner)',
 }
 
 
 def run(ctx):
+    area = batchlib.replay_area(ctx)
+    if area == batchlib.AREA:       # a replay of the component stage: the operation sequence alone
+        ctx.l1()
+        batchlib.run_batcher(ctx, 'C06')
+        return
     run_check(ctx, 'C06', ["ack"], lambda scn, run: concurrent(scn, run) or restarted(run) or any(isinstance(t, dict) and t.get("a") == -1 and t.get("ok") is False for t in run["trace"]), 'a response and a persistence event were concurrent, or the process died, or the store failed')
+    if area is not None:
+        return
+    # stage 2: batching.Batcher + job.Runner as components of their own (batch boundaries, a stop with work queued, a failing runner call)
+    batchlib.run_batcher(ctx, 'C06')
